@@ -125,7 +125,7 @@ theorem names_found (sorted : Bool) (name : Str) (props : List Entry) :
 
 mutual
 theorem property_items_eq (sorted : Bool) : ∀ c,
-    Component_property_items nameToIcalP sortedKeysP keysP getitemP c true sorted = .ok (pyItems sorted c)
+    Component_property_items (name_to_ical := nameToIcalP) (sorted_keys := sortedKeysP) (keys := keysP) (getitem := getitemP) c true sorted = .ok (pyItems sorted c)
   | .mk name props subs => by
     have hn := names_found sorted name props
     have hnames : (if sorted = true then sortedKeysP (.mk name props subs) else keysP (.mk name props subs)) =
@@ -149,7 +149,7 @@ end
 
 /-- `property_items(sorted=..)` as the serialiser sees it is the hand model's `items` -/
 theorem property_items_items (sorted : Bool) (c : Comp) :
-    ∃ l, Component_property_items nameToIcalP sortedKeysP keysP getitemP c true sorted = .ok l ∧
+    ∃ l, Component_property_items (name_to_ical := nameToIcalP) (sorted_keys := sortedKeysP) (keys := keysP) (getitem := getitemP) c true sorted = .ok l ∧
       l.map ivItem = items sorted c :=
   ⟨pyItems sorted c, property_items_eq sorted c, pyItems_items sorted c⟩
 
